@@ -38,6 +38,10 @@ func checkC14(c *Ctx) {
 	c.Expect("C14-R2", 49*3)
 	c.Expect("C14-R4", 1)
 	c.Expect("C14-R5", 8)
+	c.Rule("C14-R14", "what a lookup returns does not depend on earlier lookups: nothing hands the result of terminfo.LookupTerminfo back to AddTerminfo (it may be a private amended copy carrying the base entry's name; only entries loaded from infocmp are registered by the wrapper)")
+	c.Expect("C14-R14", 1)
+	c.Rule("C14-R13", "NAME-256color for a known base always synthesises the standard strings: the block that sets Colors = 256 depends on the name only, not on the contents of the base entry")
+	c.Expect("C14-R13", 1)
 	c.Expect("C14-R6", 4)
 	if err := tpSelfTest(); err != nil {
 		c.Undecided("C14-R2", "self-test", "-", err.Error())
@@ -71,6 +75,8 @@ func checkC14(c *Ctx) {
 		c14Ownership(c, p)
 		c14Lookup(c, p)
 		c14Registry(c, p)
+		checkSynth256Unconditional(c, p, "C14-R13")
+		checkNoReRegistration(c, p, "C14-R14")
 		c14Disable(c, p)
 		c14FoundBaseIsUsed(c, p)
 		checkVetoLast(c, p, "C14-R10")
